@@ -491,11 +491,14 @@ def run(chk):
     check_t4(chk, ml)
     check_t6(chk, m, K)
     chk.rule_prefix = "C01."
-    chk.rule_filter = lambda r: r.startswith(("S3", "S8", "S2.timer-comparator", "S2.queue-discipline"))
+    chk.rule_filter = lambda r: r.startswith(("S3", "S8", "S2.timer-comparator", "S2.queue-discipline", "S6"))
     lib = build.load_units(build.library_units(), "default")
     C01.check_s2(chk, m, K, lib)
     C01.check_s3(chk, m, K)
     C01.check_s8(chk, m, K)
+    # the pass that re-queues a yielded fibre is what cancels that fibre's own pending timeout (T5): the fast path, which
+    # skips it, may only be taken with an empty timer queue
+    C01.check_s4_s6(chk, m, K)
     chk.rule_prefix = ""
     chk.rule_filter = None
     # the run queue and the timer queue are list_t: FIFO / sorted order rest on list.c keeping head, tail and links right (C09)
